@@ -131,3 +131,74 @@ ASSUMPTIONS = cm.ASSUME_CORE + ['assumption NoMathTokensInTextOutput (see DESIGN
 LEVEL_TEXT = 'Proves mechanism lemmas as postconditions of single functions: (closure) expand_sequence without env_stop and parse return no token of a markup class (Comment, Macro, Special, Begin, End, Item, Accent, Verbatim, MathBegin) and no Action/Void token -- no control sequence, brace or $ token survives; (tiling) the scanner tokens tile the source, so no character is lost or duplicated by tokenisation; (issue 23) arg_buffer always returns a non-empty buffer and pushes the collected tokens back at end of text; (skip comments) parser_work removes whole token ranges only; (flows) parse appends exactly the collected flows after the main text; maths: every token of a rendered formula is generated text or a pass-through text token. The catalogue-wide sentence (every typeset word appears once) is NOT decided: it needs a formal semantics of LaTeX expansion as oracle.'
 LEVEL_NOTE = 'End-to-end conservation of words is out of reach of per-function contracts; known finding F15 (control sequence of babel leaks from an environment end inside maths) is listed, not hidden.'
 TECHNIQUE = 'contract-based deductive verification: per-function postconditions and loop invariants over the real AST, z3; end-to-end sentence of the property not decided'
+
+
+def hidden_text_small_documents(seed):
+    """the second sentence of the property (hidden text never leaks, visible
+    words appear once and in order) on documents built from up to 5 pieces
+    out of 9: visible words, skip comments (opening, closing -- also stray,
+    nested and unclosed ones), a comment line, \\LTskip, a label.  Reference:
+    a word is hidden iff it stands between an opening skip comment and the
+    next closing one (an unclosed region hides nothing), in a comment or in the argument of
+    \\LTskip / \\label."""
+    import contextlib
+    import io
+    import itertools
+    import re
+    from pyvc import replay as _r
+    t2t = _r.real_module('yalafi.tex2txt')
+    B, E = '%%% LT-SKIP-BEGIN\n', '%%% LT-SKIP-END\n'
+    pieces = ['Vis%d word.\n', 'Hid%d \\textbf{text}.\n', B, E,
+              '% Com%d ment\n', '\\LTskip{Arg%d} tail%d.\n',
+              '\\label{lab%d}\n', B, E]
+    n, fails = 0, []
+    for ln in range(1, 6):
+        for combo in itertools.product(range(len(pieces)), repeat=ln):
+            if ln >= 4 and (sum((k + 1) * (i + 2) for i, k in
+                                enumerate(combo)) + seed) % (
+                                    4 if ln == 4 else 23):
+                continue
+            if not any(pieces[k] in (B, E) for k in combo):
+                continue
+            src, want, hidden = '', [], False
+            for i, k in enumerate(combo):
+                p = pieces[k].replace('%d', str(i))
+                src += p
+                if pieces[k] == B:
+                    # an opening comment that is never closed hides
+                    # nothing (error mark, the text is kept: C08)
+                    if any(pieces[k2] == E for k2 in combo[i + 1:]):
+                        hidden = True
+                elif pieces[k] == E:
+                    hidden = False
+                elif not hidden:
+                    if k in (0, 1):
+                        want += re.findall(r'[A-Za-z]+\d*', p.replace(
+                            '\\textbf', ''))
+                    elif k == 5:
+                        want += ['tail%d' % i]
+            n += 1
+            err = io.StringIO()
+            try:
+                with contextlib.redirect_stderr(err):
+                    txt, pos = t2t.tex2txt(src, t2t.Options())
+            except BaseException as e:      # noqa
+                fails.append({'source': src, 'why': 'exception %r' % (e,)})
+                continue
+            got = [w for w in re.findall(r'[A-Za-z]+\d*', txt)
+                   if w != 'LATEXXXERROR']
+            if got != want:
+                fails.append({'source': src, 'words': got,
+                              'expected': want})
+                if len(fails) >= 3:
+                    break
+        if len(fails) >= 3:
+            break
+    return {'name': 'hidden-text-never-leaks-visible-words-once',
+            'bounded': True,
+            'bound': 'documents of <= 5 pieces out of 9 (all up to 3, '
+            'a sample of the longer ones)',
+            'evaluations': n, 'failures': fails}
+
+
+QUICK_BOUNDED = [hidden_text_small_documents]
